@@ -487,19 +487,20 @@ def type_table(run, p, ver):
 
 
 def fuzz(run, p, km):
-    run.rule('C02-FUZZ', 'fuzz_down(v,e) <= v <= fuzz_up(v,e) for e >= 0 and both signs of v (four-law sign algebra on the factor), '
-                         'dates pass through; each fuzzy comparator is exact-or-fuzzed on its second argument; the fuzzed argument is '
+    run.rule('C02-FUZZ', 'fuzz_down(v,e) <= v <= fuzz_up(v,e), each moving v by the proportion e, evaluated over a grid of values of both signs, zero '
+                         'and tolerances including 0; dates pass through; each fuzzy comparator, evaluated on a grid around the limit and '
+                         'the fuzzed limit, is exact-or-fuzzed on its second argument; the fuzzed argument is '
                          'always the constraint value and the other one the column aggregate')
     base = 'tdda.constraints.base.'
     for name, want in (('fuzz_down', '<='), ('fuzz_up', '>=')):
         f = p.fn(base + name)
-        rel = fuzz_relation(f)
-        run.ob('C02-FUZZ', '%s::%s::direction' % (f.rel, f.short), rel == {want},
-               '%s(v, e) relates to v as %s on both signs (needed %s)' % (name, sorted(rel), want), fn=f)
-        src = ast.unparse(f.node)
-        ok = 'datetime.datetime' in src and 'datetime.date' in src and any(
-            isinstance(s, ast.If) and returns_v(s.body, f.posparams[0]) for s in f.node.body)
-        run.ob('C02-FUZZ', '%s::%s::dates' % (f.rel, f.short), ok, '%s returns dates unchanged' % name, fn=f, nontrivial=False)
+        bad, n = fuzz_direction(p, f, want)
+        run.ob('C02-FUZZ', '%s::%s::direction' % (f.rel, f.short), not bad,
+               '%s(v, e) %s v and moves v by the proportion e, over %d (v, e) pairs on both signs and at zero%s' % (
+                   name, want, n, '' if not bad else '; wrong for e.g. v=%r e=%r: %r' % bad[0]), fn=f)
+        dbad = fuzz_dates(p, f)
+        run.ob('C02-FUZZ', '%s::%s::dates' % (f.rel, f.short), not dbad,
+               '%s returns dates and datetimes unchanged%s' % (name, '' if not dbad else '; not for %r' % (dbad[0],)), fn=f, nontrivial=False)
     fuzz_shape(run, p, 'C02-FUZZ')
     # roles at every call that reaches a fuzzed position, through helpers
     fparams = fuzzed_params(p, {'fuzz_down': {0}, 'fuzz_up': {0}})
@@ -542,38 +543,61 @@ def returns_v(body, v):
     return len(body) == 1 and isinstance(body[0], ast.Return) and norm(body[0].value) == v
 
 
-def fuzz_relation(f):
-    """{'<='} / {'>='} / mixed: how v * (A if v >= 0 else B) relates to v for e >= 0."""
-    v = f.posparams[0]
-    e = f.posparams[1]
-    rels = set()
-    for r in ast.walk(f.node):
-        if isinstance(r, ast.Return) and isinstance(r.value, ast.BinOp) and isinstance(r.value.op, ast.Mult):
-            l, rr = r.value.left, r.value.right
-            if norm(l) != v:
-                l, rr = rr, l
-            if norm(l) != v or not isinstance(rr, ast.IfExp):
-                return {'?'}
-            t = rr.test
-            if not (isinstance(t, ast.Compare) and norm(t.left) == v and isinstance(t.comparators[0], ast.Constant)
-                    and t.comparators[0].value == 0):
-                return {'?'}
-            if isinstance(t.ops[0], (ast.GtE, ast.Gt)):
-                arms = (('nonneg', rr.body), ('neg', rr.orelse))
-            elif isinstance(t.ops[0], (ast.Lt, ast.LtE)):
-                arms = (('neg', rr.body), ('nonneg', rr.orelse))
-            else:
-                return {'?'}
-            for sign, fac in arms:
-                txt = norm(fac).replace(' ', '').strip('()')
-                if txt == '1-' + e:
-                    k = 'le1'
-                elif txt == '1+' + e:
-                    k = 'ge1'
-                else:
-                    return {'?'}
-                rels.add({('nonneg', 'le1'): '<=', ('nonneg', 'ge1'): '>=', ('neg', 'le1'): '>=', ('neg', 'ge1'): '<='}[(sign, k)])
-    return rels or {'?'}
+FUZZ_V = (-1e6, -100, -7, -1.5, -1, -0.01, 0, 0.0, 0.01, 1, 1.5, 7, 100, 1e6)
+FUZZ_E = (0, 0.001, 0.01, 0.25)
+
+
+def _spec_fuzz(name, v, e):
+    if name == 'fuzz_down':
+        return v * ((1 - e) if v >= 0 else (1 + e))
+    return v * ((1 + e) if v >= 0 else (1 - e))
+
+
+def _close(x, y):
+    return x == y or abs(x - y) <= 1e-9 * max(abs(x), abs(y))
+
+
+def _fuzz_interp(p):
+    import datetime
+    from ..pyeval import Interp
+    I = Interp(p)
+    I.safe_modules = {'datetime'}
+    I.extra_names['datetime'] = datetime
+    return I
+
+
+def fuzz_direction(p, f, want):
+    """fuzz_down / fuzz_up evaluated over a grid of values and tolerances: direction and size of the move."""
+    from ..pyeval import Unsupported, Raised
+    bad = []
+    n = 0
+    for v in FUZZ_V:
+        for e in FUZZ_E:
+            try:
+                got = _fuzz_interp(p).call(f, [v, e])
+            except (Unsupported, Raised) as x:
+                raise AnalysisError('%s is not evaluable: %s' % (f.short, x))
+            n += 1
+            ok = isinstance(got, (int, float)) and (got <= v if want == '<=' else got >= v) and _close(got, _spec_fuzz(f.name, v, e))
+            if not ok:
+                bad.append((v, e, got))
+    return bad, n
+
+
+def fuzz_dates(p, f):
+    import datetime
+    from ..pyeval import Unsupported, Raised
+    bad = []
+    for v in (datetime.date(2020, 2, 29), datetime.datetime(2020, 2, 29, 12, 30, 1)):
+        try:
+            got = _fuzz_interp(p).call(f, [v, 0.01])
+        except Raised:
+            got = 'an exception'
+        except Unsupported as x:
+            raise AnalysisError('%s is not evaluable on dates: %s' % (f.short, x))
+        if got != v:
+            bad.append((v, got))
+    return bad
 
 
 def fuzzed_params(p, seed):
@@ -604,22 +628,31 @@ def fuzzed_params(p, seed):
 
 
 def fuzz_shape(run, p, rid):
+    """each fuzzy comparator, evaluated on a grid: a OP b exactly, or a OP the fuzzed b"""
+    from ..pyeval import Unsupported, Raised
     base = 'tdda.constraints.base.'
-    for name, op, helper in (('fuzzy_greater_than', ast.GtE, 'fuzz_down'), ('fuzzy_less_than', ast.LtE, 'fuzz_up'),
-                             ('df_fuzzy_gt', ast.GtE, 'fuzz_down'), ('df_fuzzy_lt', ast.LtE, 'fuzz_up')):
+    for name, op, helper in (('fuzzy_greater_than', '>=', 'fuzz_down'), ('fuzzy_less_than', '<=', 'fuzz_up'),
+                             ('df_fuzzy_gt', '>=', 'fuzz_down'), ('df_fuzzy_lt', '<=', 'fuzz_up')):
         f = p.fn(name) if name.startswith('df_') else p.fn(base + name)
-        ret = [s for s in f.node.body if isinstance(s, ast.Return)]
-        ok = False
-        if len(ret) == 1:
-            v = ret[0].value
-            parts = v.values if isinstance(v, ast.BoolOp) and isinstance(v.op, ast.Or) else \
-                ([v.left, v.right] if isinstance(v, ast.BinOp) and isinstance(v.op, ast.BitOr) else [])
-            a, b = f.posparams[0], f.posparams[1]
-            if len(parts) == 2 and all(isinstance(x, ast.Compare) and isinstance(x.ops[0], op) for x in parts):
-                exact = [x for x in parts if norm(x.left) == a and norm(x.comparators[0]) == b]
-                fz = [x for x in parts if norm(x.left) == a and isinstance(x.comparators[0], ast.Call)
-                      and getattr(x.comparators[0].func, 'id', '') == helper
-                      and norm(x.comparators[0].args[0]) == b and norm(x.comparators[0].args[1]) == f.posparams[2]]
-                ok = len(exact) == 1 and len(fz) == 1
-        run.ob(rid, '%s::%s::shape' % (f.rel, f.short), ok,
-               '%s(a, b, e) is `a %s b or a %s %s(b, e)`' % (name, '>=' if op is ast.GtE else '<=', '>=' if op is ast.GtE else '<=', helper), fn=f)
+        bad = []
+        n = 0
+        for b in FUZZ_V:
+            for e in FUZZ_E:
+                fz = _spec_fuzz(helper, b, e)
+                for a in sorted({b, fz, b - 1, b + 1, (b + fz) / 2, fz - abs(fz) * 0.001 - 1e-6, fz + abs(fz) * 0.001 + 1e-6}):
+                    if a != fz and _close(a, fz):
+                        continue
+                    try:
+                        got = _fuzz_interp(p).call(f, [a, b, e])
+                    except (Unsupported, Raised) as x:
+                        raise AnalysisError('%s is not evaluable: %s' % (f.short, x))
+                    n += 1
+                    want = (a >= b or a >= fz) if op == '>=' else (a <= b or a <= fz)
+                    if a == fz and a != b and bool(got) != want:
+                        # exactly on the fuzzed limit: a differently rounded but equivalent computation may fall either side
+                        continue
+                    if bool(got) != want:
+                        bad.append((a, b, e, got))
+        run.ob(rid, '%s::%s::shape' % (f.rel, f.short), not bad,
+               '%s(a, b, e) is `a %s b or a %s %s(b, e)` over %d (a, b, e) triples%s' % (
+                   name, op, op, helper, n, '' if not bad else '; wrong for e.g. a=%r b=%r e=%r: %r' % bad[0]), fn=f)
